@@ -874,11 +874,11 @@ public:
       // Func
       if (directive->getToken() == Token::FUNC) {
         auto funcDirective = dynamic_cast<Func*>(directive.get());
-        debugInfo.push_back(std::make_pair(funcDirective->getLabel(), byteOffset));
+        debugInfo.push_back(std::make_pair(funcDirective->getLabel(), funcDirective->getValue()));
       // Proc
       } else if (directive->getToken() == Token::PROC) {
         auto procDirective = dynamic_cast<Proc*>(directive.get());
-        debugInfo.push_back(std::make_pair(procDirective->getLabel(), byteOffset));
+        debugInfo.push_back(std::make_pair(procDirective->getLabel(), procDirective->getValue()));
       // Padding
       } else if (directive->getToken() == Token::PADDING) {
         for (size_t i=0; i<directive->getSize(); i++) {
